@@ -575,3 +575,18 @@ pub fn lzbuffer_sanity_twin() {
     forget(b);
     vassert!(false, "sanity");
 }
+
+/// Stub for `LzAccumBuffer::from_stream`: same value, but the buffer starts with spare
+/// capacity so that the few bytes a harness appends never enter Vec's growth path (measured
+/// to dominate every query that reaches it; growth is alloc's business, not lzma-rs's).
+pub fn accum_from_stream_with_capacity<W: io::Write>(stream: W, memlimit: usize) -> LzAccumBuffer<W> {
+    LzAccumBuffer {
+        stream,
+        buf: Vec::with_capacity(32),
+        memlimit,
+        len: 0,
+    }
+}
+pub fn accum_buf_len<W: io::Write>(a: &LzAccumBuffer<W>) -> usize {
+    a.buf.len()
+}
